@@ -387,9 +387,12 @@ func c12burst(c *core.Ctx) {
 		idx[o.kind] = i
 	}
 	n := 0
-	for _, kind := range []string{"pub1", "pub2", "sub", "unsub"} {
+	for _, kind := range []string{"pub1", "pub2", "sub", "unsub", "ping"} {
 		for inflight := 1; inflight <= 36; inflight++ {
 			for _, order := range []string{"oldest", "newest"} {
+				if kind == "ping" && order == "newest" {
+					continue // PINGRESPs carry no identifier: each answers the oldest PINGREQ
+				}
 				n++
 				name := fmt.Sprintf("sender-burst: %d x %s outstanding, acknowledged %s first", inflight, kind, order)
 				if c.Replay != nil {
@@ -411,7 +414,7 @@ func c12burst(c *core.Ctx) {
 				for i := 0; i < inflight; i++ {
 					hist = append(hist, idx["api:"+kind])
 				}
-				acks := map[string][]string{"pub1": {"PUBACK"}, "pub2": {"PUBREC", "PUBCOMP"}, "sub": {"SUBACK"}, "unsub": {"UNSUBACK"}}[kind]
+				acks := map[string][]string{"pub1": {"PUBACK"}, "pub2": {"PUBREC", "PUBCOMP"}, "sub": {"SUBACK"}, "unsub": {"UNSUBACK"}, "ping": {"PINGRESP"}}[kind]
 				for _, a := range acks {
 					for i := 0; i < inflight; i++ {
 						hist = append(hist, idx["ack:"+a+":"+order])
@@ -437,7 +440,7 @@ func c12burst(c *core.Ctx) {
 		}
 	}
 	c.Rep.Scenarios++
-	c.Rep.Sample(map[string]interface{}{"search": "sender-burst", "kinds": []string{"pub1", "pub2", "sub", "unsub"}, "outstanding": "1..36 (quick: 4,8,12,14..33)", "orders": []string{"oldest", "newest"}})
+	c.Rep.Sample(map[string]interface{}{"search": "sender-burst", "kinds": []string{"pub1", "pub2", "sub", "unsub", "ping"}, "outstanding": "1..36 (quick: 4,8,12,14..33)", "orders": []string{"oldest", "newest"}})
 }
 
 func init() { core.Register("C12", C12) }
